@@ -59,6 +59,38 @@ def setup_worker(ctx):
     monitors.install_python_hooks()
 
 
+def many_temporaries_defn(rng):
+    """>= 12 shared sub-terms (each read twice, so cse() names every one) and, in the first output, the
+    term sin(k*th)**2 + cos(k*th)**2 whose argument k*th is read nowhere else: cse() names it, simplify()
+    folds the sum to 1 and the temporary is left without a reader."""
+    S, C = E.S, E.C
+    st = ["th", "x", "y", "v", "w", "z"]
+    terms = []
+    for a in range(len(st)):
+        b = (a + 1) % len(st)
+        terms.append(["sin", ["add", S(st[a]), ["mul", C(rng.randint(2, 5)), S(st[b])]]])
+        terms.append(["tanh", ["mul", S(st[a]), ["add", S(st[b]), E.F(0.5 + a)]]])
+        terms.append(["hyp", ["sub", S(st[a]), ["mul", E.F(1.5 + a), S(st[b])]]])
+    rng.shuffle(terms)
+    kth = ["mul", S("k"), S("th")]
+    pyth = ["add", ["pow", ["sin", kth], 2], ["pow", ["cos", kth], 2]]
+    model = {}
+    for i, s_ in enumerate(st):
+        t = [terms[(3 * i + j) % len(terms)] for j in range(6)]   # every term is read by two outputs
+        body = ["add", S(s_), ["mul", S("dt"), ["add", ["add", ["mul", t[0], t[1]], ["mul", t[2], t[3]]], ["add", t[4], t[5]]]]]
+        if i == 0:
+            body = ["add", body, ["mul", S("dt"), pyth]]
+        model[s_] = body
+    return {
+        "dt": "dt", "state": st, "control": [], "calibration": ["k"],
+        "model": model, "model_as_text": [], "containers": {"state": "set", "control": "set", "calibration": "set"},
+        "calibration_map": {"k": 1.75}, "process_noise": {},
+        "sensors": {"gps": {"r0": ["mul", terms[0], terms[1]], "r1": ["add", terms[2], terms[0]]}},
+        "sensor_noises": {"gps": {"r0": 0.5, "r1": 0.25}}, "reading_keys": {"gps": "str"},
+        "n_shared": 12, "family": "many_temporaries",
+    }
+
+
 def gen_defn(rng, tier, cpp):
     deep = (not cpp) and (tier == "thorough" or rng.random() < 0.4)
     return gen.program(rng, n_state=(3, 5) if (cpp or tier == "quick") else (3, 6), n_control=(0, 3), n_calib=(0, 2),
@@ -285,6 +317,9 @@ def _role_swapped_twin(R, rng, defn):
 
 def _cpp(R, rng, ctx, i):
     defn = gen_defn(rng, ctx["tier"], cpp=True)
+    if i % 4 == 1:
+        defn = many_temporaries_defn(rng)
+        R.stats.inc("many_temporaries_programs")
     compiler = "clang++-14" if i % 3 == 1 else "g++"
     w = dict(defn=defn, compiler=compiler)
     fp = gen.fingerprint(defn)
